@@ -656,4 +656,7 @@ def targets(tier='quick'):
     # the compression sweeps: truncation parameters reach every SVD, nothing else changes the network
     from . import nasvd
     T += nasvd.targets(PROP, 'svd_sweep_parameters')
+    # the index duplication every influence tensor goes through: the contract the steps above assume, on the real body
+    from . import delta
+    T += delta.targets(PROP)
     return T
